@@ -496,7 +496,9 @@ func runC14Cluster(r *Run, stratum string) *Violation {
 				}
 			}
 		}
-		freshEpoch := resyncs > 0 && sinceResync >= 1 && sinceResync <= 3 && epochFaults < 2
+		// (after a fail-over also before the first unit of the new history is committed: the old records carry the
+		// previous replication id, only the root checkpoint tells that they are obsolete)
+		freshEpoch := resyncs > 0 && (sinceResync >= 1 || l.prevID != "") && sinceResync <= 3 && epochFaults < 2
 		if l.getPhase() == 1 && (crashes < maxCrashes && fedSome || holeNow && holeFaults < 2 || freshEpoch) {
 			w := 1
 			if len(l.ready()) > 0 {
@@ -564,6 +566,13 @@ func runC14Cluster(r *Run, stratum string) *Violation {
 					}
 					resyncUnit = j
 					R := units[j].endOff
+					if r.Sched().Choose("resync_failover", 3) != 0 {
+						// the full resync follows a fail-over of the source: the new master reports a new replication id
+						// and the previous one as its second id (one offset space); the root checkpoint is written under
+						// the new id, the recovery records of the time before still carry the old one
+						l.prevID, l.runID = l.runID, "9e8d7c6b5a4f3e2d1c0b9a8f7e6d5c4b3a2f1e0d"
+						r.W.Fault("source_failover")
+					}
 					root.SetHash(0, l.cpName, map[string]string{
 						l.runID + "_runid":   l.runID,
 						l.runID + "_version": "1",
